@@ -858,6 +858,12 @@ func (e *Engine) modRangesOf(env *specEnv, spec *FuncSpec) []modRange {
 			continue
 		}
 		if call, ok := m.Expr.(*ast.CallExpr); ok {
+			if id, ok := call.Fun.(*ast.Ident); ok && id.Name == "bytes" && len(call.Args) == 2 {
+				// bytes(p, n): the n bytes at an unsafe pointer
+				s := env.eval(call).V.(Slice)
+				out = append(out, modRange{R: s.P.R, Lo: s.P.O, Hi: c.Add(s.P.O, s.Len), Text: m.Text})
+				continue
+			}
 			if id, ok := call.Fun.(*ast.Ident); ok && (id.Name == "bytes" || id.Name == "elems") {
 				v := env.eval(call.Args[0])
 				s := v.V.(Slice)
@@ -1012,6 +1018,19 @@ func (e *Engine) externCall(fr *frame, x *ssa.Call, key string, fn *ssa.Function
 						}
 					}
 				}
+			}
+		}
+		if key == "bytes.Equal" && len(args) == 2 {
+			// bytes.Equal(a, b) == true  ==>  same length and the same byte at every index
+			a, aok := args[0].(Slice)
+			b, bok := args[1].(Slice)
+			if r, rok := res.(Scalar); aok && bok && rok {
+				st.assume(c.Implies(r.T, c.Eq(a.Len, b.Len)))
+				j := c.FreshVar("q_eq", BV(64))
+				ba := c.loadCell(&st.heap, K8, Ptr{a.P.R, c.Add(a.P.O, j)}, 0)
+				bb := c.loadCell(&st.heap, K8, Ptr{b.P.R, c.Add(b.P.O, j)}, 0)
+				guard := c.And(r.T, c.Sle(c.Const(64, 0), j), c.Slt(j, a.Len))
+				st.facts = append(st.facts, e.mkFact(j, c.Implies(guard, c.Eq(ba, bb))))
 			}
 		}
 		k(st, res)
